@@ -28,6 +28,25 @@ def _mkscratch():
     return tempfile.mkdtemp(prefix="verif-", dir=base)
 
 
+_POOL_TIMEOUT_S = 3600    # a dead worker must not hang the driver for ever
+
+
+def _safe(fn):
+    """Pool workers must only raise picklable exceptions (a ConductorError with keyword-only
+    constructor arguments cannot be unpickled in the parent and would hang the pool)."""
+    import functools
+    import traceback
+
+    @functools.wraps(fn)
+    def wrapper(job):
+        try:
+            return fn(job)
+        except BaseException:
+            raise RuntimeError("harness worker %s crashed on job %r:\n%s"
+                               % (fn.__name__, job, traceback.format_exc())) from None
+    return wrapper
+
+
 # --------------------------------------------------------------------------- accumulator
 def _size(inp):
     text = json.dumps(inp, default=str, sort_keys=True)
@@ -147,12 +166,13 @@ def _fill_version_dir(d, tag):
 
 def _create_index(path, rows):
     import conductor.execution.version_index as vi
-    from conductor.task_identifier import TaskIdentifier
-    index = vi.VersionIndex.create_or_load(path)
-    for ident, ts, commit, dirty in rows:
-        index.insert_output_version(TaskIdentifier.from_str(ident), vi.Version(ts, commit, bool(dirty)))
-    index.commit_changes()
+    index = vi.VersionIndex.create_or_load(path)      # the real schema / format version
     index._conn.close()
+    conn = sqlite3.connect(str(path))                 # rows by explicit column names (fixture, not under test)
+    conn.executemany("INSERT INTO version_index (task_identifier, timestamp, git_commit_hash, has_uncommitted_changes) VALUES (?, ?, ?, ?)",
+                     [(ident, ts, commit, 1 if dirty else 0) for ident, ts, commit, dirty in rows])
+    conn.commit()
+    conn.close()
 
 
 def _make_project(root, rows, with_cond=True):
@@ -309,16 +329,23 @@ def _scenarios(tier):
 
 
 def _make_archive(scratch, tag, task=None, latest=False):
-    """A good archive made by the real `cond archive` from a fresh source project."""
+    """A well-formed archive of the selected versions of a fresh source project, written with
+    tarfile + sqlite3 (same layout as `cond archive`: the archive index and the version
+    directories relative to cond-out), so that the restore checks do not depend on archive.main."""
     src = scratch / ("src-" + tag)
     src.mkdir()
     cond_out = _make_source(src)
     out = scratch / ("arch-" + tag)
     out.mkdir()
     path = out / "a.tar.gz"
-    status, _, err = _archive(src, task, latest, path)
-    if status != "ok" or not path.is_file():
-        raise RuntimeError("harness: could not produce a baseline archive (%s %s)" % (status, err))
+    rows = o_selected(task, latest)
+    index_path = out / "version_index_archive.sqlite"
+    _create_index(index_path, rows)
+    with tarfile.open(path, "w:gz") as t:
+        t.add(index_path, arcname="version_index_archive.sqlite")
+        for r in rows:
+            t.add(cond_out / rel_dir(r[0], r[1]), arcname=rel_dir(r[0], r[1]))
+    os.unlink(index_path)
     return src, cond_out, path
 
 
@@ -336,6 +363,7 @@ def _repack(scratch, tag, good_archive, mutate):
     return out
 
 
+@_safe
 def _scenario_worker(job):
     index, scenario, tier = job
     kind = scenario[0]
@@ -624,7 +652,7 @@ def run(tier, seed):
     t0 = time.time()
     with mp.Pool(processes=n_proc) as pool:
         jobs = [(i, s, tier) for i, s in enumerate(scenarios)]
-        for (i, s, _), (a, b, c, d, w) in zip(jobs, pool.map(_scenario_worker, jobs, chunksize=1)):
+        for (i, s, _), (a, b, c, d, w) in zip(jobs, pool.map_async(_scenario_worker, jobs, chunksize=1).get(_POOL_TIMEOUT_S)):
             rt.merge(a)
             aon.merge(b)
             smr.merge(c)
